@@ -52,6 +52,14 @@ CHECKS = {
         note="One fragment size per scripted writer (RTPS 8.4.14.1.1); 'all fragments arrived' uses superset knowledge (every fragment number delivered at some time).",
         technique=TECH + "; reassembled bytes compared with the written bytes",
     ),
+    "C09": dict(
+        engine="E2",
+        category="exploration",
+        text="Seeded deterministic simulation of whole DomainParticipants (engine E2: the real event-loop and discovery threads run under a baton scheduler on simulated time and a simulated network). A real reader participant is matched through real discovery with real writers of a second participant, which then goes silent; a scripted peer speaks with the writers' GUIDs and sends, at every position including the head of the queue, undecodable CDR, unknown representation ids, key-only disposes with undecodable key, disposes by known and by never-seen key hash, among intelligible values and disposes, for reliable/best-effort, with_key/no_key readers. The cache is drained through DataReader::take / take_next_sample / into_iterator / async stream and no_key SimpleDataReader try_take_one / async stream, interleaved with arrivals. Oracle: every call returns (wall-clock watchdog on the forked run), at most one error per bad change, every intelligible change of every writer delivered once, in order.",
+        design_ref="DESIGN.md section 5 C09, section 12",
+        note="Hang detection is wall clock (10 s per run in a forked child); the watchdog reports the decisions drawn so far as the replay. Found and fixed: endless loop on dispose-by-unknown-key-hash (f46dea5).",
+        technique=TECH + "; whole-participant simulation with scripted wire traffic and a delivered-once-in-order oracle",
+    ),
     "C20": dict(
         engine="E1",
         category="exploration",
